@@ -80,6 +80,25 @@ pub fn record_c05(args: &Args, mut out: Out) -> usize {
         // the two 12-token lists of the repository's tests, as token/weight pairs
         ["AA", "KK", "QQ", "JJ", "TT", "99", "88-66", "AKs", "AQs-A9s", "KQs", "AKo", "AQo"].iter().map(|t| (t.to_string(), "")).collect(),
     ];
+    // a prefix that covers all 1326 combos, followed by tokens that re-weight parts of it (the later token must still win)
+    {
+        let rk = crate::proj::RANK_CH;
+        let mut cover: Vec<(String, &str)> = vec![("22+".to_string(), ":0.5")];
+        for h in 0..12 {
+            cover.push((format!("{}2s+", rk[h]), ":0.25"));
+            cover.push((format!("{}2o+", rk[h]), ""));
+        }
+        for tail in [vec![("AA", ":0.1")], vec![("AsKs", ":0"), ("72o", ":0.333"), ("T9s-T6s", ":0.99999994")], vec![("22+", ""), ("AhAd", ":0.25")]] {
+            let mut l = cover.clone();
+            l.extend(tail.into_iter().map(|(b, w)| (b.to_string(), w)));
+            lists.push(l);
+        }
+        // and the cover assembled in another order (pockets last)
+        let mut l: Vec<(String, &str)> = cover[1..].to_vec();
+        l.push(cover[0].clone());
+        l.push(("KK".to_string(), ":0.125"));
+        lists.push(l);
+    }
     for _ in 0..nlists {
         let k = 1 + rng.usize(12);
         let mut l = vec![];
@@ -354,6 +373,19 @@ fn random_unicode(rng: &mut Rng, n: usize) -> Vec<String> {
         v.push(s);
     }
     v.push("x".repeat(100_000));
+    // every combo with a weight of its own, and with one odd weight per rank pair: valid, very long range texts
+    let mut all = vec![];
+    let mut odd = vec![];
+    let mut i = 0;
+    for a in 0..52usize {
+        for b in (a + 1)..52 {
+            i += 1;
+            all.push(format!("{}{}:{}", card(a), card(b), (i as f32) / 2048.0));
+            odd.push(format!("{}{}:{}", card(a), card(b), if (a + b) % 5 == 0 { "0.25" } else { "0.5" }));
+        }
+    }
+    v.push(all.join(","));
+    v.push(odd.join(","));
     v.push("AA,".repeat(2000));
     v
 }
